@@ -256,6 +256,17 @@ def op_fp(op):
             except Exception:
                 d[attr] = repr(type(v))
     d["measurement_deps"] = sorted(r.ind for r in getattr(op, "measurement_deps", ()))
+    # every other instance attribute too (an operation object that remembers something from being applied - a cached matrix, a flag - is
+    # no longer the object the user wrote): name, and value where it has a stable representation
+    for attr, v in sorted(getattr(op, "__dict__", {}).items()):
+        if attr in d or attr in ("p", "_measurement_deps", "_extra_deps", "decomp"):
+            continue
+        if isinstance(v, (bool, int, float, complex, str, type(None))):
+            d["attr:" + attr] = v if not isinstance(v, complex) else [v.real, v.imag]
+        elif isinstance(v, np.ndarray):
+            d["attr:" + attr] = par_repr(v)
+        else:
+            d["attr:" + attr] = "<%s>" % type(v).__name__
     return d
 
 
